@@ -1,4 +1,55 @@
-import ErgoModel.Exec
+/-
+  C01 — A ready task is handed to at most one claimant.
+  Model: ErgoModel/Proc.lean (any number of processes, every interleaving of lock attempts, reads, writes, crashes).
+-/
+import ErgoProofs.Lemmas.ProcThm
+import ErgoProofs.Lemmas.Ready
 namespace Ergo
-theorem C01_placeholder : True := trivial
+open Proc
+
+/-- a claimer that won was handed the head — i.e. the (created_at, id)-least element — of the ready list of the log *as it
+    was when its claim took effect*, and recorded exactly claim + state=doing for it -/
+theorem C01_claim_outcome {log0 : List Event} {ws : List (List Event → Except CmdErr Write)} {nr : Nat} {s : Sys}
+    (h : Reachable (Sys.init log0 ws nr) s) (i p : Nat) (snap : List Event) (w : Write)
+    (agent epic : String) (now : Time) (hd : ws[p]? = some (claimDecide agent epic now))
+    (hc : s.commits[i]? = some (p, snap, w)) :
+    snap = logAfter log0 s.commits i ∧
+    ∃ g t rest, replay snap = .ok g ∧ readyTasks g epic = t :: rest ∧
+      (∀ u ∈ readyTasks g epic, claimLe t u = true) ∧ t.isEpic = false ∧ isReady g t = true ∧
+      w = .append [Event.claim t.id agent (some now), Event.state t.id .doing (some now)] := by
+  obtain ⟨h1, g, t, rest, hg, hr, hw⟩ := claim_outcome h i p snap w agent epic now hd hc
+  refine ⟨h1, g, t, rest, hg, hr, readyTasks_head_min g epic t rest hr, ?_, ?_, hw⟩
+  · have := (mem_readyTasks g epic t).1 (by rw [hr]; simp); exact this.2.1
+  · have := (mem_readyTasks g epic t).1 (by rw [hr]; simp); exact this.2.2.1
+
+/-- "nothing is ready" is answered only when the ready set of the log at lock time is empty -/
+theorem C01_no_ready_means_empty {log0 : List Event} {ws : List (List Event → Except CmdErr Write)} {nr : Nat} {s : Sys}
+    (h : Reachable (Sys.init log0 ws nr) s) (p : Nat) (wtr : Writer) (snap : List Event)
+    (agent epic : String) (now : Time) (hd : ws[p]? = some (claimDecide agent epic now))
+    (hw : s.writers[p]? = some wtr) (hp : wtr.phase = .finished (.failed snap .noReady)) :
+    ∃ g, replay snap = .ok g ∧ ∀ t ∈ g.tasks, ¬ (t.isEpic = false ∧ isReady g t = true ∧ (epic = "" ∨ t.epicId = epic)) := by
+  obtain ⟨g, hg, hr⟩ := claim_noReady h p wtr snap agent epic now hd hw hp
+  exact ⟨g, hg, (readyTasks_nil_iff g epic).1 hr⟩
+
+/-- lock busy means no effect -/
+theorem C01_busy_no_effect {log0 : List Event} {ws : List (List Event → Except CmdErr Write)} {nr : Nat} {s : Sys}
+    (h : Reachable (Sys.init log0 ws nr) s) (p : Nat) (w : Writer) (hw : s.writers[p]? = some w)
+    (hp : w.phase = .finished .busy) : ∀ c ∈ s.commits, c.1 ≠ p :=
+  not_ok_not_committed h p w hw (Or.inl hp)
+
+/-- two winners never decide on the same log: the later one's snapshot already contains the earlier one's claim and
+    state=doing lines (so the same task can be handed out again only if somebody moved it back to todo in between) -/
+theorem C01_no_double {log0 : List Event} {ws : List (List Event → Except CmdErr Write)} {nr : Nat} {s : Sys}
+    (h : Reachable (Sys.init log0 ws nr) s) (i j p q : Nat) (snapP snapQ : List Event) (wP wQ : Write)
+    (hij : i < j) (hP : s.commits[i]? = some (p, snapP, wP)) (hQ : s.commits[j]? = some (q, snapQ, wQ)) :
+    snapQ = (s.commits.take j |>.drop (i + 1)).foldl (fun l c => applyWrite l c.2.2) (applyWrite snapP wP) :=
+  claim_no_double h i j p q snapP snapQ wP wQ hij hP hQ
+
+/-- mutual exclusion: at any moment the lock holder is exactly the one process between lock and unlock -/
+theorem C01_mutual_exclusion {log0 : List Event} {ws : List (List Event → Except CmdErr Write)} {nr : Nat} {s : Sys}
+    (h : Reachable (Sys.init log0 ws nr) s) (p : Nat) (w : Writer) (hw : s.writers[p]? = some w) :
+    (s.holder = some p ↔ (w.phase = .locked ∨ (∃ snap, w.phase = .read snap) ∨ (∃ snap wr, w.phase = .wrote snap wr) ∨
+                          (∃ snap e, w.phase = .erred snap e))) :=
+  holder_unique h p w hw
+
 end Ergo
